@@ -362,3 +362,12 @@ Proof.
 Qed.
 
 Print Assumptions C14_whole_pipeline_accept.
+
+(* The ORDER of the passes that Pipeline.v sequences (and in which the first error wins), TRANSLATED from the two
+   `run_passes` functions of generation/src/{mir,lir}/passes/mod.rs on every build: names_normalized runs before names_unique (uniqueness is decided on the normalised names) and refs_validated before reset_values_converted (the repair of D14). *)
+From DD Require GenPassOrder.
+Theorem C14_pass_order_from_source :
+  DDGen.PassOrder.mir_pass_order = GenPassOrder.expected_mir_pass_order /\
+  DDGen.PassOrder.lir_pass_order = GenPassOrder.expected_lir_pass_order.
+Proof. exact GenPassOrder.pass_order_as_modelled. Qed.
+Print Assumptions C14_pass_order_from_source.
